@@ -210,12 +210,37 @@ def check(case):
         return _check(case)
 
 
+def _array_parameter(case, classes):
+    """a Parameter may hold an array: after set() every evaluation uses exactly the new values, whatever dtype the first
+    values had, and set() must not write through to the caller's arrays"""
+    from optyx import Parameter, Variable
+    first = [1, 2, 3] if len(case["steps"]) % 2 else [1.0, 2.0, 3.0]
+    new = np.array([0.5, 1.75, -2.25]) + 0.25 * (len(case["steps"]) % 3)
+    keep_first, keep_new = np.array(first), new.copy()
+    p = Parameter("arr", keep_first)
+    x = Variable("x")
+    e = p * x + 1
+    v0 = np.asarray(e.evaluate({"x": 2.0}), dtype=float)
+    p.set(keep_new)
+    v1 = np.asarray(e.evaluate({"x": 2.0}), dtype=float)
+    classes.append("array-parameter")
+    if not np.allclose(v0, np.array(first, dtype=float) * 2 + 1) or not np.allclose(v1, new * 2 + 1, rtol=1e-12, atol=0):
+        return Result.violation("stale-array-parameter", f"Parameter({first}) then set({new.tolist()}): p*x+1 at x=2 gives {v1.tolist()}, "
+                                                         f"expected {(new * 2 + 1).tolist()}", classes)
+    if not np.array_equal(keep_first, np.array(first)) or not np.array_equal(keep_new, new):
+        return Result.violation("parameter-set-writes-through", f"caller's arrays changed: {keep_first.tolist()} / {keep_new.tolist()}", classes)
+    return None
+
+
 def _check(case):
     values = {s: SLOTS[s][0] for s in SLOTS}
     classes = ["slots:" + "+".join(sorted(case["pslots"])), "constraints:" + str(case["constraints"]),
                "cfg:" + case.get("config", "default")]
     classes += ["slot:" + s for s in case["pslots"]] + (["vector-parameter"] if case["as_vec"] else [])
     with quiet():
+        r_ = _array_parameter(case, classes)
+        if r_ is not None:
+            return r_
         try:
             M = Model(case, values, constants=False)
         except Exception as ex:
